@@ -187,7 +187,7 @@ def r4(ctx, rep):
                 if par is None:
                     par = guards.parents(f["body"])
                 # inside a regeneration loop with a membership test? (`while <taken>` or `loop { .. <free> => break .. }`)
-                loop, tests, form = guards.regen_loop(par, n)
+                loop, tests, form = guards.regen_loop(par, n, fn=f)
                 if loop is not None and tests:
                     rep.ok(key, {"loop": form, "tests": [t[0] for t in tests]})
                 elif key in rev:
@@ -199,7 +199,8 @@ def r4(ctx, rep):
     # the reviewed reason for ensure_column_name rests on anchor_split: the name that yields in a clash must be the generated one
     a = syn.fn("pq::anchor::anchor_split", crate="prqlc")
     pre = {}
-    loops = []
+    loops = []        # (loop node, [(set text, tested arg node)], locals defined before the column loop, the column loop)
+    par_a = guards.parents(a["body"])
     for st in a["body"]["s"]:
         if st.get("k") == "local" and st.get("init") is not None:
             txt = show(st["init"], maxdepth=12)
@@ -207,13 +208,14 @@ def r4(ctx, rep):
                 pre[show(st["pat"]).replace("mut ", "")] = st
         if st.get("k") == "for":
             for n in walk(st["body"]):
-                if n.get("k") == "while" and any(m.get("k") == "mcall" and m["m"] == "gen" for m in walk(n["body"])):
-                    loops.append((n, dict(pre)))
+                if n.get("k") == "mcall" and n["m"] == "gen" and not n["a"] and show(n["r"]).endswith("col_name"):
+                    lp, tests, form = guards.regen_loop(par_a, n, fn=a)
+                    if lp is not None and tests:
+                        loops.append((lp, tests, dict(pre), st))
             break
     ok = False
-    for w, before in loops:
-        c = show(w["c"], maxdepth=12)
-        sets = [nm for nm, st in before.items() if f"{nm}.contains(" in c]
+    for lp, tests, before, _st in loops:
+        sets = sorted({t[0] for t in tests if t[0] in before})
         # one set filled inside the loop (names given so far), one collected BEFORE any name is generated (names columns already have)
         pre_filled = [nm for nm in sets if "collect" in show(before[nm]["init"], maxdepth=14) and "cols_at_split" in show(before[nm]["init"], maxdepth=14)]
         ok = ok or (len(sets) >= 2 and bool(pre_filled))
@@ -221,24 +223,23 @@ def r4(ctx, rep):
     # (the variable the loop tests and regenerates), each time one is given
     strip = lambda t: re.sub(r"\.(clone|to_owned|to_string)\(\)$", "", t.lstrip("&*")).strip()
     filled_ok, detail = False, "no set that is filled inside the column loop is tested by the regeneration loop"
-    for st in a["body"]["s"]:
-        if st.get("k") != "for":
-            continue
-        for w, before in loops:
-            if not guards._contains(st["body"], w):
+    for lp, tests, before, st in loops:
+        for S, argn in tests:
+            if S not in before:
                 continue
-            for m in walk(w["c"]):
-                if m.get("k") == "mcall" and m["m"] == "contains" and m["a"] and show(m["r"]) in before:
-                    S, v = show(m["r"]), strip(show(m["a"][0]))
-                    fills = [x for x in walk(st["body"]) if x.get("k") == "mcall" and x["m"] in ("insert", "extend", "push") and show(x["r"]) == S and x["a"]]
-                    if not fills:
-                        continue        # a set collected before the loop (checked above)
-                    wrong = [show(x["a"][-1]) for x in fills if strip(show(x["a"][-1])) != v]
-                    # the fill follows the regeneration loop in the same block (the name is final there)
-                    blk = guards.parents(st["body"]).get(id(w))
-                    after = [x for x in fills if blk is not None and blk.get("k") == "block" and any(guards._contains(s2, x) or s2 is x for s2 in blk["s"][[i for i, s2 in enumerate(blk["s"]) if s2 is w][0] + 1:])] if blk is not None and blk.get("k") == "block" and any(s2 is w for s2 in blk["s"]) else []
-                    filled_ok = not wrong and bool(after)
-                    detail = f"`{S}` is tested for `{v}` but filled with {wrong or [show(x['a'][-1]) for x in fills]}" + ("" if after else " (not after the regeneration loop, where the name is final)")
+            v = strip(show(argn))
+            fills = [x for x in walk(st["body"]) if x.get("k") == "mcall" and x["m"] in ("insert", "extend", "push") and show(x["r"]) == S and x["a"]]
+            if not fills:
+                continue        # a set collected before the loop (checked above)
+            wrong = [show(x["a"][-1]) for x in fills if strip(show(x["a"][-1])) != v]
+            # the fill follows the regeneration loop in the same block (the name is final there)
+            blk = guards.parents(st["body"]).get(id(lp))
+            after = []
+            if blk is not None and blk.get("k") == "block" and any(s2 is lp for s2 in blk["s"]):
+                i_lp = [i for i, s2 in enumerate(blk["s"]) if s2 is lp][0]
+                after = [x for x in fills if any(guards._contains(s2, x) or s2 is x for s2 in blk["s"][i_lp + 1:])]
+            filled_ok = not wrong and bool(after)
+            detail = f"`{S}` is tested for `{v}` but filled with {wrong or [show(x['a'][-1]) for x in fills]}" + ("" if after else " (not after the regeneration loop, where the name is final)")
     rep.check(filled_ok, "gen:prqlc::sql::pq::anchor::anchor_split:given-names-recorded",
               f"anchor_split: the set of names already given at this split must receive every name that is given (the regenerated one, not the name before renaming): {detail}; "
               "otherwise a later column that is literally called like a name just generated (`_expr_0`) is not seen as a clash, two columns of the sub-query share a name and a reference binds to the wrong one",
@@ -324,7 +325,7 @@ def r9(ctx, rep):
     f = syn.fn("postprocess::assign_names", crate="prqlc")
     # role anchor: the set that the regeneration loop of `table_name.gen()` tests
     par = guards.parents(f["body"])
-    found = [guards.regen_loop(par, n) for n in walk(f["body"]) if n.get("k") == "mcall" and n["m"] == "gen" and show(n["r"]).endswith("table_name")]
+    found = [guards.regen_loop(par, n, fn=f) for n in walk(f["body"]) if n.get("k") == "mcall" and n["m"] == "gen" and show(n["r"]).endswith("table_name")]
     found = [x for x in found if x[0] is not None and x[1]]
     if not found:
         raise AnchorMissing("assign_names: the loop that regenerates `table_name.gen()` until the name is free")
